@@ -215,7 +215,13 @@ func (c *Real64) Pow(a, k ConstScalar) Scalar {
 }
 /* -------------------------------------------------------------------------- */
 func (c *Real64) Sqrt(a ConstScalar) Scalar {
-  return c.Pow(a, ConstFloat64(0.5))
+  neginf := math.IsInf(a.GetFloat64(), -1)
+  c.Pow(a, ConstFloat64(0.5))
+  if neginf {
+    // pow(-Inf, 0.5) is +Inf, the square root of -Inf is not a number
+    c.setFloat64(math.NaN())
+  }
+  return c
 }
 /* -------------------------------------------------------------------------- */
 func (c *Real64) Sin(a ConstScalar) Scalar {
